@@ -61,8 +61,10 @@ type mMap struct {
 type heap struct {
 	g      [NSlots]obj // nil = unbound
 	nextID int
-	taint  string // set when this hypothesis follows a known-defect behaviour
-	pref   kind   // transient operand preference during resolve (not cloned)
+	taint  string      // set when this hypothesis follows a known-defect behaviour
+	pref   kind        // transient operand preference during resolve (not cloned)
+	direct bool        // transient: operands name slots directly (not cloned)
+	again  map[int]int // transient: raw operand index -> slot forced by Step.Again
 }
 
 // ---------- cloning (sharing-preserving deep copy) ----------
@@ -627,14 +629,19 @@ func (h *heap) argObjs(as []carg) []obj {
 }
 
 func sortKey(o obj, keyfn int) int {
-	i, ok := o.(mInt)
-	if !ok {
-		return 0
+	k := 0
+	switch x := o.(type) {
+	case mInt:
+		k = int(x)
+	case mSym:
+		k = len(x)
+	default:
+		k, _ = lenOf(o)
 	}
 	if keyfn == 2 {
-		return -int(i)
+		return -k
 	}
-	return int(i)
+	return k
 }
 
 func lessBy(pred int, a, b int) bool {
